@@ -173,6 +173,9 @@ def expected_pipes(node_addr, mc_level, allow_multicast, prefix, suffix):
     out = [H.net_pipe_address(node_addr, p, prefix, suffix, multicast=False) for p in range(6)]
     if allow_multicast:
         a = bytearray([prefix] * 5)
+        if not isinstance(mc_level, int) or not 0 <= mc_level <= 4:
+            out[0] = b"no such level %r" % (mc_level,)  # never equals a radio address
+            return out
         if mc_level:
             a[1] = suffix[mc_level]
         else:
